@@ -179,7 +179,8 @@ def selftest(repo, only):
     specs = _specs(args)
     snap = take_snapshot(os.environ.get("VERIF_SCRATCH_BASE", "/var/tmp"))
     if PROBE is not None:
-        specs = [(n, pth, dict(m, _probe=(PROBE or [m.get("property")]))) for n, pth, m in specs]
+        specs = [(n, pth, dict(m, _probe=(PROBE or [m.get("property")] if m.get("property") else
+                                          sorted({e["check"] for e in m.get("expect", [])})))) for n, pth, m in specs]
     bad = 0
     q = multiprocessing.Manager().Queue()
     for i in range(jobs):
